@@ -4,7 +4,7 @@
 From stdpp Require Import gmap sets.
 From Coq Require Import ZArith.
 From SV Require Import SM.IdMan SM.IdManProofs SM.IdManSpec SM.IdManSpecProofs SM.IdLife SM.IdLifeProofs
-  SM.IdWorld SM.IdWorldProofs SM.IdNode SM.IdNodeProofs SM.IdFixupHist SM.IdFixupHistProofs Gen.IdSites_gen.
+  SM.IdWorld SM.IdWorldProofs SM.IdNode SM.IdNodeProofs SM.IdFixupHist SM.IdFixupHistProofs SM.IdNest SM.IdNestProofs Gen.IdSites_gen.
 Open Scope Z_scope.
 
 (** Release discipline read from the source census (Gen/IdSites_gen.v). *)
@@ -184,3 +184,24 @@ Proof. exact fx_hist_refuted_without_positive_test. Qed.
 Theorem c08_fixup_history_needs_deferral :
   (fx_hist true false [(10, 1); (11, 1); (12, 2)] [FDel 10; FSet 13]).*2 = [2; 2; 1].
 Proof. exact fx_hist_refuted_without_deferral. Qed.
+
+(** Round 3.  Entity ⊃ Solid ⊃ Side as ONE world (SM/IdNest.v): an event on a top-level object (point entity, brush
+    entity with its brushes and their faces, world brush) is the whole bundle of constructor / copy() / remove /
+    re-add / destructor calls made for it and its parts.  After EVERY history of such events over any number of
+    maps, in every map the existing entities have pairwise distinct positive IDs, and so have the existing
+    brushes (world brushes and those of entities together) and the existing faces — with the release and copy
+    discipline of the three kinds read from the source. *)
+Theorem c08_nested_world_unique : ∀ es m,
+  release_on_remove KEnt = false → release_on_remove KSolid = false → release_on_remove KFace = false →
+  copy_to_dest KEnt = true → copy_to_dest KSolid = true → copy_to_dest KFace = true →
+  let w := trun (release_on_remove KEnt) (release_on_remove KSolid) (release_on_remove KFace)
+                (copy_to_dest KEnt) (copy_to_dest KSolid) (copy_to_dest KFace) es in
+  (NoDup (live_ids_in m (tE w)) ∧ ∀ i, i ∈ live_ids_in m (tE w) → 0 < i) ∧
+  (NoDup (live_ids_in m (tS w)) ∧ ∀ i, i ∈ live_ids_in m (tS w) → 0 < i) ∧
+  (NoDup (live_ids_in m (tF w)) ∧ ∀ i, i ∈ live_ids_in m (tF w) → 0 < i).
+Proof. intros es m -> -> -> -> -> ->. exact (trun_unique es m). Qed.
+(** When Entity.copy() does not pass the map down to its brushes: brushes 1, 2, 2 and faces 1, 2, 2 in one map. *)
+Theorem c08_nested_copy_from_source_refuted :
+  let w := trun false false false true false false nested_copy_history in
+  live_ids_in 1 (tE w) = [1] ∧ live_ids_in 1 (tS w) = [1; 2; 2] ∧ live_ids_in 1 (tF w) = [1; 2; 2].
+Proof. exact nested_copy_from_source_refuted. Qed.
